@@ -52,9 +52,11 @@ extern "C" TaskCtx* sim_cur() { TaskCtx* t = tl_cur; return t ? t : &g_main_ctx;
 
 extern "C" void sim_status_run(uint64_t a, uint64_t b, uint64_t c, uint64_t d) {
   uint64_t* s = g_status ? g_status : g_status_dummy;
-  s[0] = a; s[1] = b; s[2] = c; s[3] = d; s[4] = ~0ull;
+  s[0] = a; s[1] = b; s[2] = c; s[3] = d; s[4] = ~0ull; s[5] = 0;
 }
 extern "C" void sim_status_op(uint64_t op) { (g_status ? g_status : g_status_dummy)[4] = op; }
+extern "C" void sim_status_flag(uint64_t f) { (g_status ? g_status : g_status_dummy)[5] |= f; }
+extern "C" void sim_limit_op_budget(uint64_t edges) { TaskCtx* t = sim_cur(); if (t->steps + edges < t->budget) { t->budget = t->steps + edges; if (t->step_limit > t->budget) t->step_limit = t->budget; } }
 
 extern "C" void sim_scope_enter(int op) {
   TaskCtx* t = sim_cur();
